@@ -90,7 +90,7 @@ def run(ctx):
     k = no_stale_elements(ctx, "T3-no-stale-element", elim, g)
     ctx.floor("elimination routines scanned for stale element reads", k, 6)
     # (1d) sibling cross-check: row clearing and column clearing are transposes of each other
-    siblings_agree(ctx, "T4-siblings-agree", M + "clear_later_rows_in_place", M + "clear_later_cols_in_place", "row step ~ column step")
+    siblings_agree(ctx, "T4-siblings-agree", M + "clear_later_rows_in_place", M + "clear_later_cols_in_place", "row step ~ column step", compare_fields=True)
     # (2) ascending
     sorts = [(bi, t) for bi, t in ai.calls("slice::<impl [T]>::sort")]
     rets_assign = [(bi, si, norm(ai.rv_origin(s["rv"]), g)) for bi, si, s in ai.assigns() if s["place"]["l"] == 0 and not s["place"]["p"]]
